@@ -5,7 +5,8 @@ MODEL = 'tree'
 RULE = ('seeded random histories over 1-4 declared ResourceMaps and 1-7 handles: 1-22 steps of '
         '__setitem__ with keys of depth 1-4 over a 2-4 name alphabet (identifiers, the empty name, names '
         'with dots/dashes), values = fresh or re-used handles, fresh / pre-populated / layered / re-used maps '
-        '(self-insertion included), pushed handle scopes (what the populator does on a conflict), clear() of '
+        '(self-insertion included), assignments that must be refused in the middle of the history (values that are '
+        'neither maps nor handles, keys that are not strings: nothing may change), pushed handle scopes (what the populator does on a conflict), clear() of '
         'roots and of sub-maps reached through get(), and the three spellings m[a/b], m[a][b], m.get(a/b) of '
         'the same path side by side.  After every mutation: the whole tree to depth 4 (object, .parent, .key, '
         'every ChainMap layer) and .parent/.key of every declared object.  Non-trivial: at least one '
@@ -15,7 +16,8 @@ RULE = ('seeded random histories over 1-4 declared ResourceMaps and 1-7 handles:
 ASSUMPTIONS = ['values inserted more than once (aliasing, cycles) are generated for the model/code '
                'correspondence; the theorems and the back-link clauses of the oracle cover values that are '
                'inserted at most once (hypothesis Fresh)',
-               'loaders do not raise and do not touch the tree']
+               'loaders do not touch the tree (loaders that raise are scripted: `newhandle h fail=i,j`)',
+               'assertions are enabled (without them the unchanged __setitem__ does not refuse a non-resource value)']
 TIE = ('hand-written heap model lean/DesperModel/Tree.lean, correspondence-checked against '
        'desper/model/tree.py on every run (differential run on generated histories, all observables of '
        'observe_at compared line by line)')
